@@ -15,7 +15,7 @@ Verdict(e) ==
   ELSE IF ~FocusValid(e.post) THEN "focus_is_a_valid_child_or_none_when_empty"
   ELSE IF e.t = "key" /\ ~(SeqSet(e.recv) \subseteq FocusPath(e.pre)) THEN "key_offered_only_on_focus_path"
   ELSE IF e.t = "key" /\ e.handled = 0 /\ e.ret_same = 0 THEN "unhandled_key_returned_unchanged"
-  ELSE IF e.t = "key" /\ e.key \in Arrows /\ e.samestruct = 1 /\ ~ArrowOnlyToSelectable(e.pre, e.post) THEN "arrow_moves_focus_only_to_selectable"
+  ELSE IF e.t = "key" /\ e.key \in Arrows /\ e.samestruct = 1 /\ ~ArrowOnlyToSelectable(e.pre, e.post, e.short = 1) THEN "arrow_moves_focus_only_to_selectable"
   ELSE IF e.t = "setcontents" /\ ~SelectableIffChild(e.post, e.target) THEN "selectable_iff_a_child_is_after_contents_set"
   ELSE IF ~(SeqSet(e.rfocus) \subseteq FocusPath(e.post)) THEN "only_focus_path_rendered_with_focus"
   ELSE IF e.t = "roundtrip" /\ e.same = 0 THEN "focus_path_round_trip"
